@@ -8,7 +8,9 @@ use std::path::PathBuf;
 use vcommon::ev::{Ctx, Tier};
 
 mod c01;
+mod c02;
 mod c04;
+mod c07;
 
 struct PropDef {
     id: &'static str,
@@ -23,10 +25,20 @@ const PROPS: &[PropDef] = &[PropDef {
     run: c01::run,
     replay: c01::replay,
 }, PropDef {
+    id: "C02",
+    level: "exploration",
+    run: c02::run,
+    replay: c02::replay,
+}, PropDef {
     id: "C04",
     level: "exploration",
     run: c04::run,
     replay: c04::replay,
+}, PropDef {
+    id: "C07",
+    level: "exploration",
+    run: c07::run,
+    replay: c07::replay,
 }];
 
 fn main() {
